@@ -132,3 +132,51 @@ Proof.
   { unfold is_necessary. destruct (n_observers x); [done|]. rewrite orb_true_iff. left. rewrite orb_true_iff. right. done. }
   rewrite Hnec. destruct (n_valid x); simpl; [|done]. repeat case_match; done.
 Qed.
+
+(* ---- no callback after disallow / unsubscribe / unlink *)
+(* a disallowed observer's handlers are not run: run_all does nothing at all *)
+Lemma run_all_disallowed o n nu now s ob :
+  obss s !! o = Some ob -> o_state ob = ODisallowed -> run_all o n nu now s = (Ok tt, s).
+Proof.
+  intros Ho Hst. unfold run_all. unfold bindM at 1, get_obs at 1. unfold bindM at 1, get at 1. cbv beta iota. rewrite Ho.
+  unfold ret at 1. cbv beta iota.
+  generalize (seq 0 (length (o_handlers ob))). intros l. induction l as [|ix l IH]; [done|].
+  cbn [forM_]. unfold bindM at 1. unfold bindM at 1, get_obs at 1. unfold bindM at 1, get at 1. cbv beta iota. rewrite Ho.
+  unfold ret at 1. cbv beta iota. destruct (o_handlers ob !! ix); rewrite ?Hst; unfold ret at 1; cbv beta iota; exact IH.
+Qed.
+
+Lemma obss_set_obss s v : obss (s <| obss := v |>) = v. Proof. done. Qed.
+Lemma obss_set_nodes s v : obss (s <| nodes := v |>) = obss s. Proof. done. Qed.
+
+(* after a successful unsubscribe no handler with that token is left in the observer's table *)
+Lemma unsubscribe_removes o tok s c s' :
+  unsubscribe o o tok s = (Ok c, s') ->
+  forall ob', obss s' !! o = Some ob' -> (o_state ob' = OInUse \/ o_state ob' = OCreated) ->
+    Forall (fun h => hd_token h <> tok) (o_handlers ob').
+Proof.
+  intros E ob' Ho' Hst. unfold unsubscribe in E. rewrite bool_decide_eq_true_2 in E by done. cbn [negb] in E.
+  unfold bindM at 1, get_obs at 1 in E. unfold bindM at 1, get at 1 in E. cbv beta iota in E.
+  destruct (obss s !! o) as [ob|] eqn:Ho; [|done]. unfold ret at 1 in E. cbv beta iota in E.
+  assert (forall s1, (if bool_decide (running_obs s1 = Some o) then panic (PBorrow 451) else ret tt) s1 = (Ok tt, s1)
+                     \/ exists t, (if bool_decide (running_obs s1 = Some o) then @panic unit (PBorrow 451) else ret tt) s1 = (Panic t, s1)) as Hb.
+  { intros s1. case_bool_decide; [right; by eexists|by left]. }
+  assert (o_state ob = ODisallowed \/ o_state ob = OUnlinked ->
+          Forall (fun h => hd_token h <> tok) (o_handlers ob')) as Hgone.
+  { intros Hg. assert (s' = s) as -> by (destruct Hg as [Hg|Hg]; rewrite Hg in E; unfold ret in E; by simplify_eq).
+    rewrite Ho in Ho'. injection Ho' as <-. destruct Hg, Hst; congruence. }
+  destruct (o_state ob) eqn:Hs; try (apply Hgone; auto; fail).
+  all: unfold bindM at 1, get at 1 in E; cbv beta iota in E; unfold bindM at 1 in E;
+       destruct (Hb s) as [Hok|[t Hp]]; [rewrite Hok in E|rewrite Hp in E; done]; cbv beta iota in E.
+  all: destruct (existsb _ (o_handlers ob)) eqn:Hex; cbn [negb] in E.
+  all: try (cbv beta iota in E; unfold ret in E; assert (s' = s) as -> by congruence; assert (ob' = ob) as -> by congruence;
+            apply Forall_forall; intros h Hh Heq;
+            assert (existsb (fun h0 => bool_decide (hd_token h0 = tok)) (o_handlers ob) = true) as Hc
+              by (apply existsb_exists; exists h; split; [first [done|by apply elem_of_list_In]|by apply bool_decide_eq_true]);
+            congruence).
+  all: unfold bindM, upd_obs, upd_node, modify, ret in E; cbv beta iota in E; injection E as _ <-.
+  all: try rewrite obss_set_nodes in Ho'.
+  all: try rewrite obss_set_obss in Ho'.
+  all: rewrite list_lookup_alter, Ho in Ho'; simpl in Ho'; injection Ho' as <-; simpl;
+       apply Forall_forall; intros h Hh; apply elem_of_list_In in Hh; apply elem_of_list_filter in Hh as [Hh _]; exact Hh.
+Qed.
+
